@@ -36,7 +36,16 @@ pub struct FlushCase {
     /// retryable IO faults (never on flush/sync) keyed by filesystem-call index; hook H1 shortens the back-off
     #[serde(default)]
     pub faults: Vec<(u16, crate::FaultKind)>,
+    /// custom writer only, fault-free cases only: 0 = "\n", 1 = "\r\n", 2 = ",\n"
+    #[serde(default)]
+    pub sep: u8,
+    /// custom writer only: what the writer itself puts after the record: 0 nothing, 1 a bare "\n" (the LAST byte of
+    /// every separator above, the whole separator only for "\n"), 2 the whole separator
+    #[serde(default)]
+    pub tail: u8,
 }
+
+pub const E2E_SEPS: [&[u8]; 3] = [b"\n", b"\r\n", b",\n"];
 
 pub fn flush_case() -> impl Strategy<Value = FlushCase> {
     let op = prop_oneof![
@@ -59,8 +68,10 @@ pub fn flush_case() -> impl Strategy<Value = FlushCase> {
                 1..4,
             ),
         ],
+        prop_oneof![2 => Just(0u8), 1 => Just(1u8), 1 => Just(2u8)],
+        prop_oneof![2 => Just(0u8), 1 => Just(1u8), 1 => Just(2u8)],
     )
-        .prop_map(|(threads, roll, size_limit, reuse, default_writer, faults)| FlushCase { threads, roll, size_limit, reuse, default_writer, faults })
+        .prop_map(|(threads, roll, size_limit, reuse, default_writer, faults, sep, tail)| FlushCase { threads, roll, size_limit, reuse, default_writer, faults, sep, tail })
 }
 
 fn synced_bytes(fs: &Fs) -> Vec<u8> {
@@ -92,12 +103,19 @@ pub fn check_flush(c: &FlushCase, cx: &mut Cx) -> vcore::Res {
     cx.class_if(!c.faults.is_empty(), "file-e2e:with-io-faults");
     let clock = VClock(Arc::new(Mutex::new(EPOCH_2024_MS + 1_000_000)));
     let rng = VRng(Arc::new(Mutex::new(7)));
+    // multi-byte separators in fault-free cases only: under IO faults a separator can itself be cut short, which the
+    // worker-level histories judge with a full tokeniser (C10 `histories`, separator "\r\n")
+    let sep: &'static [u8] = if c.default_writer || !c.faults.is_empty() { b"\n" } else { E2E_SEPS[(c.sep % 3) as usize] };
+    let tail: &'static [u8] = if c.default_writer { b"" } else { match c.tail % 3 { 0 => b"", 1 => b"\n", _ => sep } };
+    cx.class_if(sep.len() > 1, "file-e2e:multi-byte-separator");
+    cx.class_if(sep.len() > 1 && tail == b"\n", "file-e2e:writer-ends-with-the-last-separator-byte-only");
+    cx.class_if(!tail.is_empty() && tail == sep, "file-e2e:writer-writes-the-separator-itself");
     let builder = if c.default_writer {
         emit_file::set(PathBuf::from("logs/e2e.txt"))
     } else {
         emit_file::set_with_writer(
             PathBuf::from("logs/e2e.txt"),
-            |buf, evt| {
+            move |buf, evt| {
                 use std::io::Write;
                 let msg = evt.msg().to_string();
                 if let Some(rest) = msg.strip_prefix('!') {
@@ -105,9 +123,10 @@ pub fn check_flush(c: &FlushCase, cx: &mut Cx) -> vcore::Res {
                     write!(buf, "<{}", &rest[..rest.len() / 2])?;
                     return Err(std::io::Error::new(std::io::ErrorKind::InvalidData, "scripted refusal"));
                 }
-                write!(buf, "<{}>", msg)
+                write!(buf, "<{}>", msg)?;
+                buf.write_all(tail)
             },
-            b"\n",
+            sep,
         )
     };
     let builder = match c.roll {
@@ -212,7 +231,16 @@ pub fn check_flush(c: &FlushCase, cx: &mut Cx) -> vcore::Res {
     if verdict.is_ok() {
         let g = fs.0.lock().unwrap();
         'files: for (path, f) in g.files.iter() {
-            for rec in f.data.split(|b| *b == b'\n') {
+            let mut rest: &[u8] = &f.data;
+            let mut recs: Vec<&[u8]> = Vec::new();
+            while let Some(at) = rest.windows(sep.len()).position(|w| w == sep) {
+                recs.push(&rest[..at]);
+                rest = &rest[at + sep.len()..];
+            }
+            recs.push(rest);
+            for rec in recs {
+                // what the writer itself appended after the record (a bare "\n" in front of a multi-byte separator)
+                let rec = if sep.len() > 1 && tail == b"\n" { rec.strip_suffix(b"\n").unwrap_or(rec) } else { rec };
                 if rec.is_empty() {
                     continue;
                 }
